@@ -29,11 +29,15 @@ import (
 //   M server-final with an empty verifier ("v=")
 
 type c15Case struct {
-	Mech string `json:"mech"` // SCRAM-SHA-1 | SCRAM-SHA-256 | SCRAM-SHA-1-PLUS | SCRAM-SHA-256-PLUS
-	Seq  string `json:"seq"`  // server messages, e.g. "HAEJ"
+	Mech     string `json:"mech"` // SCRAM-SHA-1 | SCRAM-SHA-256 | SCRAM-SHA-1-PLUS | SCRAM-SHA-256-PLUS
+	Seq      string `json:"seq"`  // server messages, e.g. "HAEJ"
+	password string // server-side password of this connection ("" = c15Pass)
 	// Reuse: the same smtp.Auth object first completes a genuine exchange on another connection
 	// (as happens with WithSMTPAuthCustom and two dials); its server signature is what 'L' replays.
 	Reuse bool `json:"reuse,omitempty"`
+	// PrevOther: before the judged connection, ANOTHER Auth value of the same user completed a genuine
+	// exchange with a different password against the same salt and iteration count.
+	PrevOther bool `json:"prev_other,omitempty"`
 }
 
 // c15Shared is what an attacker can have recorded earlier: the server-final of a previous exchange.
@@ -52,8 +56,9 @@ type c15Result struct {
 }
 
 const (
-	c15User = "user"
-	c15Pass = "pencil"
+	c15User      = "user"
+	c15Pass      = "pencil"
+	c15OtherPass = "the-previous-password"
 )
 
 func c15Exec(c *c15Case) (*c15Result, *core.Violation) {
@@ -69,17 +74,44 @@ func c15Exec(c *c15Case) (*c15Result, *core.Violation) {
 		if hv != nil {
 			return nil, hv
 		}
+		if first.violation != nil {
+			return first, nil
+		}
 		if first.authErr != nil || !first.legit {
 			return nil, core.V("HARNESS-reuse", "the genuine first exchange failed: %v (legit %v, trace %v)", first.authErr, first.legit, first.trace)
 		}
 		shared.prevSig = shared.lastValidSig
 		return c15Conn(c, c.Seq, a, shared)
 	}
+	if c.PrevOther && !strings.HasSuffix(c.Mech, "-PLUS") {
+		var a smtp.Auth
+		if strings.Contains(c.Mech, "SHA-1") {
+			a = smtp.ScramSHA1Auth(c15User, c15OtherPass)
+		} else {
+			a = smtp.ScramSHA256Auth(c15User, c15OtherPass)
+		}
+		other := *c
+		other.password = c15OtherPass
+		first, hv := c15Conn(&other, "HAEJ", a, &c15Shared{})
+		if hv != nil {
+			return nil, hv
+		}
+		if first.violation != nil {
+			return first, nil
+		}
+		if first.authErr != nil || !first.legit {
+			return nil, core.V("HARNESS-prevother", "the genuine exchange with the other password failed: %v (trace %v)", first.authErr, first.trace)
+		}
+	}
 	return c15Conn(c, c.Seq, nil, shared)
 }
 
 func c15Conn(c *c15Case, seq string, given smtp.Auth, shared *c15Shared) (*c15Result, *core.Violation) {
 	out := &c15Result{}
+	pass := c15Pass
+	if c.password != "" {
+		pass = c.password
+	}
 	plus := strings.HasSuffix(c.Mech, "-PLUS")
 	p := refsasl.ScramParams{Hash: "SHA-256", Plus: plus, Salt: []byte("verif-salt-0123"), Iter: 4, NonceSuffix: "SrvNonce9z"}
 	if strings.Contains(c.Mech, "SHA-1") {
@@ -141,14 +173,14 @@ func c15Conn(c *c15Case, seq string, given smtp.Auth, shared *c15Shared) (*c15Re
 				if plus {
 					cb, _ = refsasl.ChannelBinding(st, cf.CBName)
 				}
-				if _, err := refsasl.VerifyFinal(p, c15Pass, cf, sfValid, string(resp), cb); err != nil {
+				if _, err := refsasl.VerifyFinal(p, pass, cf, sfValid, string(resp), cb); err != nil {
 					out.violation = core.V("bad-client-final", "client-final does not verify: %v", err)
 					return
 				}
 				i := strings.LastIndex(string(resp), ",p=")
 				authMessage = cf.Bare + "," + sfValid + "," + string(resp)[:i]
 				cfinOK = true
-				shared.lastValidSig = srvSig(c15Pass, authMessage)
+				shared.lastValidSig = srvSig(pass, authMessage)
 			case 'B', 'C', 'D':
 				if kind == "client-final" {
 					out.violation = core.V("continued-after-invalid-server-first", "the client sent a client-final message in response to an invalid server-first (%c): %q", sym, resp)
@@ -198,14 +230,14 @@ func c15Conn(c *c15Case, seq string, given smtp.Auth, shared *c15Shared) (*c15Re
 				challenge = "r=" + n + p.NonceSuffix + ",s=!!notbase64!!"
 			case 'E':
 				if cfinOK {
-					challenge = "v=" + srvSig(c15Pass, authMessage)
+					challenge = "v=" + srvSig(pass, authMessage)
 				} else {
 					// no verified client-final in this exchange: the best a server can do is sign what it has
 					am := ""
 					if cf != nil {
 						am = cf.Bare + "," + sfValid + ","
 					}
-					challenge = "v=" + srvSig(c15Pass, am)
+					challenge = "v=" + srvSig(pass, am)
 				}
 			case 'F':
 				challenge = "v=" + srvSig("another-password", authMessage)
@@ -348,7 +380,7 @@ func c15Run(c c15Case) []*core.Violation {
 		vs = append(vs, core.V("legit-exchange-failed", "a complete, valid exchange (%s) ended in the error %v; trace %v", c.Seq, out.authErr, out.trace))
 	}
 	if strings.ContainsAny(c.Seq, "AEFGLM") {
-		rec.NonTrivial(fmt.Sprintf("%s/%s/%v", c.Mech, c.Seq, c.Reuse))
+		rec.NonTrivial(fmt.Sprintf("%s/%s/%v/%v", c.Mech, c.Seq, c.Reuse, c.PrevOther))
 		rec.Sample(fmt.Sprintf("%s/%d/%v", c.Mech, len(c.Seq), out.authErr == nil), map[string]interface{}{"mech": c.Mech, "sequence": c.Seq, "trace": out.trace, "auth_error": fmt.Sprint(out.authErr), "legit": out.legit})
 	}
 	return vs
@@ -356,7 +388,7 @@ func c15Run(c c15Case) []*core.Violation {
 
 func c15Describe() {
 	rec := core.Rec("C15")
-	rec.Rule = "bounded-exhaustive: every server message sequence of length <= 5 (PLUS variants <= 4) in quick and <= 7 (PLUS <= 6) in thorough over the alphabet {A valid server-first, B server-first with foreign nonce, C with truncated nonce, D malformed server-first, E valid server-final, F server-final made with another key, G server-final over empty state, H empty challenge, I junk, J 235, K 535, L replayed valid server-final of an earlier exchange of the same Auth object, M server-final with an empty verifier}, for SCRAM-SHA-1, SCRAM-SHA-256 and both PLUS variants (over a real TLS 1.2 handshake on an in-memory connection), driven through smtp.Client.Auth, also with an Auth object that completed a genuine exchange on an earlier connection (reuse, sequences <= 4 / <= 6); depth-first with pruning once the client has aborted or the exchange ended. " +
+	rec.Rule = "bounded-exhaustive: every server message sequence of length <= 5 (PLUS variants <= 4) in quick and <= 7 (PLUS <= 6) in thorough over the alphabet {A valid server-first, B server-first with foreign nonce, C with truncated nonce, D malformed server-first, E valid server-final, F server-final made with another key, G server-final over empty state, H empty challenge, I junk, J 235, K 535, L replayed valid server-final of an earlier exchange of the same Auth object, M server-final with an empty verifier}, for SCRAM-SHA-1, SCRAM-SHA-256 and both PLUS variants (over a real TLS 1.2 handshake on an in-memory connection), driven through smtp.Client.Auth, also with an Auth object that completed a genuine exchange on an earlier connection (reuse, sequences <= 4 / <= 6), and after another Auth value of the same user completed an exchange with a different password against the same salt and iteration count; depth-first with pruning once the client has aborted or the exchange ended. " +
 		"Oracle (reference tracker of the exchange): Auth returns nil only if, since the last client-first, the valid server-first was answered by a verifying client-final and the valid server-final was acknowledged before the 235; the client sends client-final only after a valid server-first and acknowledges a v= message only when it is the valid one; a complete valid exchange succeeds. " +
 		"Non-trivial: the sequence contains a message that is valid for some exchange (A, E, F, G, L or M). Distinct by (mechanism, sequence)."
 	rec.Assumptions = []string{"PBKDF2 iteration count 4 to keep the enumeration cheap", "known finding scram-bare-235: a 235 is accepted whatever preceded it; counted and excluded by signature"}
@@ -379,10 +411,11 @@ func TestC15Enum(t *testing.T) {
 		mech  string
 		max   int
 		reuse bool
+		prev  bool
 	}
-	jobs := []job{{"SCRAM-SHA-1", 5, false}, {"SCRAM-SHA-256", 5, false}, {"SCRAM-SHA-1-PLUS", 4, false}, {"SCRAM-SHA-256-PLUS", 4, false}, {"SCRAM-SHA-1", 4, true}, {"SCRAM-SHA-256", 4, true}}
+	jobs := []job{{"SCRAM-SHA-1", 5, false, false}, {"SCRAM-SHA-256", 5, false, false}, {"SCRAM-SHA-1-PLUS", 4, false, false}, {"SCRAM-SHA-256-PLUS", 4, false, false}, {"SCRAM-SHA-1", 4, true, false}, {"SCRAM-SHA-256", 4, true, false}, {"SCRAM-SHA-1", 4, false, true}, {"SCRAM-SHA-256", 4, false, true}}
 	if core.Thorough() {
-		jobs = []job{{"SCRAM-SHA-1", 7, false}, {"SCRAM-SHA-256", 7, false}, {"SCRAM-SHA-1-PLUS", 6, false}, {"SCRAM-SHA-256-PLUS", 6, false}, {"SCRAM-SHA-1", 6, true}, {"SCRAM-SHA-256", 6, true}}
+		jobs = []job{{"SCRAM-SHA-1", 7, false, false}, {"SCRAM-SHA-256", 7, false, false}, {"SCRAM-SHA-1-PLUS", 6, false, false}, {"SCRAM-SHA-256-PLUS", 6, false, false}, {"SCRAM-SHA-1", 6, true, false}, {"SCRAM-SHA-256", 6, true, false}, {"SCRAM-SHA-1", 6, false, true}, {"SCRAM-SHA-256", 6, false, true}}
 	}
 	n := 0
 	for _, j := range jobs {
@@ -400,7 +433,7 @@ func TestC15Enum(t *testing.T) {
 				run := len(seq) >= 2 || core.Shard == 0
 				var aborted bool
 				if run {
-					c := c15Case{Mech: j.mech, Seq: seq, Reuse: j.reuse}
+					c := c15Case{Mech: j.mech, Seq: seq, Reuse: j.reuse, PrevOther: j.prev}
 					out, hv := c15Exec(&c)
 					if hv != nil {
 						t.Fatalf("HARNESS-ERROR: %v", hv)
@@ -412,7 +445,7 @@ func TestC15Enum(t *testing.T) {
 					}
 				} else {
 					// length-1 prefixes are run by shard 0 only; still need to know whether to descend
-					c := c15Case{Mech: j.mech, Seq: seq, Reuse: j.reuse}
+					c := c15Case{Mech: j.mech, Seq: seq, Reuse: j.reuse, PrevOther: j.prev}
 					out, hv := c15Exec(&c)
 					if hv != nil {
 						t.Fatalf("HARNESS-ERROR: %v", hv)
